@@ -10,8 +10,8 @@ def files(rpc_names=("Import", "Yield", "Fetch"), file_name="acme/lab/v1/global.
     fd = G.new_file(file_name, "acme.lab.v1", deps=G.STD_DEPS + ["acme/lab/v1/metadata.proto"])
     G.add_message(fd, "Spec", [G.F("class", 1, T.TYPE_STRING), G.F("size", 2, T.TYPE_INT32), G.F("type", 3, T.TYPE_STRING)])
     G.add_message(fd, "Req", [G.F("name", 1, T.TYPE_STRING), G.F("type", 2, T.TYPE_STRING), G.F("format", 3, T.TYPE_MESSAGE, type_name=".acme.lab.v1.Spec"),
-                              G.F("spec", 4, T.TYPE_MESSAGE, type_name=".acme.lab.v1.Spec"), G.F("max", 5, T.TYPE_INT32),
-                              G.F("in", 6, T.TYPE_STRING), G.F("meta", 7, T.TYPE_MESSAGE, type_name=".acme.lab.v1.Meta")])
+                              G.F("spec", 4, T.TYPE_MESSAGE, type_name=".acme.lab.v1.Spec"), G.F("max", 5, T.TYPE_INT32, required=True),
+                              G.F("in", 6, T.TYPE_STRING, required=True), G.F("meta", 7, T.TYPE_MESSAGE, type_name=".acme.lab.v1.Meta")])
     G.add_message(fd, "Resp", [G.F("any", 1, T.TYPE_STRING)])
     svc = G.add_service(fd, "Lab")
     for i, rn in enumerate(rpc_names):
@@ -34,6 +34,10 @@ def scenarios():
                 compile(f.content, f.name, "exec")
             except SyntaxError as e:
                 failures.append({"case": "emitted module does not compile", "file": f.name, "error": str(e)[:150]})
+    import_bindings_unique(res, failures, "reserved-word corpus")
+    mc = G.run_isolated("props.C12_native", "module_collisions")
+    cases += mc["cases"]
+    failures += mc["failures"]
     if failures:
         return {"cases": cases, "failures": failures}
     with G.materialised(res):
@@ -80,6 +84,41 @@ def scenarios():
                     failures.append({"case": f"{which} flattened reserved parameters", "sent": str(got)})
             except Exception as e:       # noqa
                 failures.append({"case": f"{which} flattened reserved parameters", "error": repr(e)[:200]})
+        # REST: the HTTP path and the query parameters carry the original names - also for REQUIRED reserved-word fields, set or left at their default
+        import importlib
+        tr_mod = importlib.import_module("acme.lab_v1.services.lab.transports.rest")
+        calls = []
+
+        class Reply:
+            status_code = 200
+            content = b"{}"
+            headers = {}
+            request = None
+
+        class Session:
+            def _do(self, verb, url, params=None, data=None, **kw):
+                calls.append((verb, url, [tuple(p) for p in (params or [])], data))
+                return Reply()
+
+            def close(self):
+                pass
+        for v in ("get", "post", "put", "patch", "delete"):
+            setattr(Session, v, (lambda vv: lambda self, url, **kw: self._do(vv, url, **kw))(v))
+        tr_mod.AuthorizedSession = lambda *a, **k: Session()
+        rclient = lab_v1.LabClient(transport=tr_mod.LabRestTransport(credentials=AnonymousCredentials()))
+        for req, want_q in (({"name": "n", "type_": "kinds/k", "spec": {"class_": "classes/c"}, "in_": "x", "max_": 5}, {"name": "n", "in": "x", "max": "5"}),
+                            ({"type_": "kinds/k", "spec": {"class_": "classes/c"}}, {"in": "", "max": "0"})):
+            cases += 1
+            del calls[:]
+            try:
+                rclient.import_(request=req)
+            except Exception as e:       # noqa
+                failures.append({"case": f"rest import_({req})", "error": repr(e)[:200]})
+                continue
+            verb, url, params, data = calls[0]
+            q = {k: str(v) for k, v in params if not k.startswith("$")}
+            if not url.endswith("/v1/kinds/k/classes/c:m0") or q != want_q:
+                failures.append({"case": f"rest import_({req}): path / query parameter names", "url": url, "query": q, "want_query": want_q})
         # wire names: proto/JSON field names stay the original
         cases += 1
         j = lab_v1.Req.to_json(lab_v1.Req(type_="t", max_=1, in_="i", spec=lab_v1.Spec(class_="c")))
@@ -91,6 +130,66 @@ def scenarios():
         want_files = {"acme/lab_v1/types/global_.py", "acme/lab_v1/types/metadata_.py"}
         if not want_files <= set(names):
             failures.append({"case": "type modules of global.proto / metadata.proto", "got": sorted(n for n in names if "/types/" in n)})
+    return {"cases": cases, "failures": failures}
+
+
+def import_bindings_unique(res, failures, label):
+    """No emitted module binds one local name to two different import targets (a later import would shadow the earlier one)."""
+    import ast
+    n = 0
+    for f in res.file:
+        if not f.name.endswith(".py"):
+            continue
+        n += 1
+        try:
+            tree = ast.parse(f.content)
+        except SyntaxError as e:
+            failures.append({"case": label + ": emitted module does not compile", "file": f.name, "error": str(e)[:150]})
+            continue
+        bound = {}
+        for node in tree.body:
+            if isinstance(node, ast.ImportFrom):
+                for a in node.names:
+                    tgt = (node.module, a.name)
+                    loc = a.asname or a.name
+                    if loc in bound and bound[loc] != tgt:
+                        failures.append({"case": label + ": two imports bind the same name", "file": f.name, "name": loc,
+                                         "imports": [".".join(x for x in bound[loc] if x), ".".join(x for x in tgt if x)]})
+                    bound[loc] = tgt
+    return n
+
+
+def module_collisions():
+    """Two proto-plus modules with the same base name (the API's own common.proto and a sibling API's common.proto consumed through proto-plus-deps),
+    referenced from one file through DIFFERENT messages (request: one, response: the other) and through one message (both)."""
+    from vf import genlab as G
+    T = G.T
+    failures, cases = [], 0
+    for both_in_one in (False, True):
+        shared = G.new_file("acme/shared/v1/common.proto", "acme.shared.v1")
+        G.add_message(shared, "Label", [G.F("text", 1, T.TYPE_STRING)])
+        common = G.new_file("acme/lab/v1/common.proto", "acme.lab.v1")
+        G.add_message(common, "Token", [G.F("value", 1, T.TYPE_STRING)])
+        lib = G.new_file("acme/lab/v1/library.proto", "acme.lab.v1", deps=G.STD_DEPS + ["acme/lab/v1/common.proto", "acme/shared/v1/common.proto"])
+        G.add_message(lib, "GetShelfRequest", [G.F("name", 1, T.TYPE_STRING), G.F("token", 2, T.TYPE_MESSAGE, type_name=".acme.lab.v1.Token")] +
+                      ([G.F("label", 3, T.TYPE_MESSAGE, type_name=".acme.shared.v1.Label")] if both_in_one else []))
+        G.add_message(lib, "Shelf", [G.F("name", 1, T.TYPE_STRING), G.F("label", 2, T.TYPE_MESSAGE, type_name=".acme.shared.v1.Label")])
+        svc = G.add_service(lib, "Library")
+        G.add_method(svc, "GetShelf", ".acme.lab.v1.GetShelfRequest", ".acme.lab.v1.Shelf", http=("get", "/v1/{name=shelves/*}"))
+        label = "base-name collision " + ("inside one message" if both_in_one else "across two messages")
+        try:
+            api, res = G.generate([shared, common, lib], "autogen-snippets=false,transport=grpc+rest,proto-plus-deps=acme.shared.v1",
+                                  to_generate=["acme/lab/v1/common.proto", "acme/lab/v1/library.proto"])
+        except Exception as e:       # noqa
+            failures.append({"case": label + ": generation failed", "error": repr(e)[:200]})
+            continue
+        cases += import_bindings_unique(res, failures, label)
+        # the two types are referenced through different qualifiers in the types module
+        src = next(f.content for f in res.file if f.name == "acme/lab_v1/types/library.py")
+        import re
+        quals = {m.group(1) for m in re.finditer(r"message=([A-Za-z_0-9.]+)\.(Token|Label)\b", src)}
+        if len(quals) != 2:
+            failures.append({"case": label + ": Token and Label are not referenced through two distinct module qualifiers", "qualifiers": sorted(quals)})
     return {"cases": cases, "failures": failures}
 
 
